@@ -91,6 +91,8 @@ type Plan struct {
 	Stages      func(tier string) []Stage
 	// Post runs offline checkers over all lines (e.g. porcupine); may append violations / stats.
 	Post func(res *Result)
+	// KeepEvents keeps "ev" lines for Post.
+	KeepEvents bool
 	// Exhaustive marks the evidence as exhaustive when the scenario reports stat "exhaustive_box"=children.
 	Exhaustive bool
 }
@@ -171,7 +173,7 @@ func check(prop, tier, replay string) int {
 		return 2
 	}
 
-	res := &Result{Prop: prop, Cases: map[string]map[string]any{}, Nontrivial: map[string]bool{}, Stats: map[string]int64{}}
+	res := &Result{Prop: prop, Cases: map[string]map[string]any{}, Nontrivial: map[string]bool{}, Stats: map[string]int64{}, KeepEvents: plan.KeepEvents}
 	if replay != "" {
 		// run the first stage's scenario once with -replay
 		st := stages[0]
